@@ -1311,6 +1311,18 @@ class Emitter:
             return True
         return any(self.has_effect(x) for x in e[1:] if isinstance(x, (tuple, list)))
 
+    def mutates(self, e):
+        """does this expression contain assignments or pushes / insertions into local collections"""
+        if isinstance(e, list):
+            return any(self.mutates(x) for x in e)
+        if not isinstance(e, tuple) or not e:
+            return False
+        if e[0] == "assign":
+            return True
+        if e[0] == "mcall" and e[2] in ("push", "insert") and e[1][0] == "path" and len(e[1][1]) == 1:
+            return True
+        return any(self.mutates(x) for x in e[1:] if isinstance(x, (tuple, list)))
+
     def fresh(self):
         self.nfresh = getattr(self, "nfresh", 0) + 1
         return f"r{self.nfresh}"
@@ -1325,7 +1337,7 @@ class Emitter:
     def o_ex(self, e, k):
         if e[0] == "call" and e[1][0] == "path" and e[1][1] == ["Err"]:
             return "(.err .format)"
-        if not self.has_effect(e):
+        if not self.has_effect(e) and not (e[0] in ("if", "match", "block") and self.mutates(e)):
             return k(self.ex(e))
         kind = e[0]
         if kind in ("paren", "ref"):
@@ -1514,6 +1526,27 @@ class Emitter:
             key = self.rust_text(s[2])
             counts = self.cfg.get("for_counts", {})
             lvars = self.cfg.get("loop_vars")
+            if key in self.cfg.get("for_lists", {}) and lvars and s[1][0] == "pvar" and not self.cfg.get("stateful", True):
+                # `for x in <iterator the table gives as a list>`: structural recursion over the list
+                idx = self.nloops
+                self.nloops += 1
+                lname = f"{self.name}_loop{idx}" if idx else f"{self.name}_loop"
+                params = self.cfg["params"]
+                pnames = [q for q, _ in params]
+                vnames = [n for n, _ in lvars]
+                tup = vnames[0] if len(vnames) == 1 else "(" + ", ".join(vnames) + ")"
+                tty = lvars[0][1] if len(lvars) == 1 else "(" + " × ".join(t for _, t in lvars) + ")"
+                x = self.v(s[1][1])
+                ety = self.cfg["for_lists"][key][1]
+                call = lambda l: " ".join([lname] + pnames + vnames + [l])   # noqa: E731
+                body = self.o_block(s[3][1], lambda v: call("rest_"))
+                imp = (self.cfg.get("implicit", "") + " ") if self.cfg.get("implicit") else ""
+                sig = imp + " ".join(f"({q} : {t})" for q, t in params) + " " + " ".join(f"({n} : {t})" for n, t in lvars)
+                self.aux.append(
+                    f"def {lname} {sig} : List {ety} → Outcome ({tty})\n"
+                    f"  | [] => .ok ({tup})\n"
+                    f"  | {x} :: rest_ =>\n{indent(body, 4)}\n")
+                return f"(({call('(' + self.cfg['for_lists'][key][0] + ')')}).bind fun {tup} =>\n{cont()})"
             unused = s[1][0] == "pwild" or (s[1][0] == "pvar" and s[1][1].startswith("_"))
             if key not in counts or not lvars or not unused:
                 raise Untranslatable("loop form in outcome mode")
